@@ -5,8 +5,8 @@ From LMBase Require Import Res IEEE.
 From LMMaxi Require Import MaxiModel.
 
 (* ----- f32 ----- *)
-Definition f32_of_bits := F32.of_bits.
-Definition f32_to_bits := F32.to_bits.
+Definition mk_f32 := F32.of_bits.
+Definition bits_f32 := F32.to_bits.
 Definition f32_is_nan := F32.is_nan.
 Definition f32_le := F32.le.
 Definition f32_argmax_generic := @argmax_generic F32.t F32.le.
@@ -30,7 +30,10 @@ Definition f32_check_argmax := @check_argmax F32.t F32.le.
 Definition f32_check_threshold := @check_threshold F32.t F32.le.
 Definition f32_index_usize := @index_usize F32.t.
 Definition f32_get := @get F32.t.
-Definition f32_score_def := @score_def F32.t F32.add F32.zero.
+(* DNA: wildcard N has index 4; an out-of-range symbol index would read NaN *)
+Definition f32_score_def := @score_def F32.t F32.add F32.zero 4 F32.nan.
+Definition f32_terms_ok := @terms_ok F32.t F32.add F32.zero 4 F32.nan f32_okv.
+Definition f32_check_padding := @check_padding F32.t f32_is_ninf.
 Definition f32_ninf := F32.ninf.
 Definition f32_is_finite := F32.is_finite.
 
@@ -56,11 +59,11 @@ Definition u8_get := @get Z.
 
 Extraction Language OCaml.
 Extraction "maxi_model.ml"
-  f32_of_bits f32_to_bits f32_is_nan f32_le f32_argmax_generic f32_max_generic f32_threshold
+  mk_f32 bits_f32 f32_is_nan f32_le f32_argmax_generic f32_max_generic f32_threshold
   f32_argmax_avx2 f32_max_avx2 f32_argmax_sse2 f32_max_sse2 f32_dispatch_argmax f32_dispatch_max
   f32_dispatch_threshold f32_ss_argmax f32_ss_threshold f32_unstripe f32_lin_argmax f32_lin_max
   f32_lin_threshold f32_check_max f32_check_argmax f32_check_threshold f32_index_usize f32_get
-  f32_score_def f32_ninf f32_is_finite
+  f32_score_def f32_terms_ok f32_check_padding f32_okv f32_is_ninf f32_ninf f32_is_finite
   u8_argmax_generic u8_max_generic u8_threshold u8_argmax_avx2 u8_max_avx2 u8_dispatch_argmax
   u8_dispatch_max u8_ss_argmax u8_ss_threshold u8_unstripe u8_lin_argmax u8_lin_max u8_lin_threshold
   u8_check_max u8_check_argmax u8_check_threshold u8_index_usize u8_get offset.
